@@ -6,6 +6,7 @@ import Dos.StoreDriver
 import Dos.StreamDriver
 import Dos.MergeDriver
 import Dos.MultiDriver
+import Dos.ConcDriver
 
 open Dos
 
@@ -13,6 +14,7 @@ structure All where
   store : StoreDriver.DState := {}
   stream : StreamDriver.DState := {}
   multi : MultiDriver.DState := {}
+  conc : ConcDriver.DState := {}
 
 def stepAll (a : All) (line : String) : All × String :=
   let l := line.trimAscii.toString
@@ -29,6 +31,9 @@ def stepAll (a : All) (line : String) : All × String :=
   else if l.startsWith "multi " then
     let (d, out) := MultiDriver.stepLine a.multi (l.drop 6).toString
     ({ a with multi := d }, out)
+  else if l.startsWith "conc " then
+    let (d, out) := ConcDriver.stepLine a.conc (l.drop 5).toString
+    ({ a with conc := d }, out)
   else if l == "reset" then ({}, "ok")
   else (a, "bad-op unknown-protocol")
 
